@@ -1032,6 +1032,9 @@ func extractRouting(repo, root string) error {
 	b.WriteString("/-- transport.go update, what is written to the cached state: a failed refresh keeps a known view (early return when\nmetadata is cached) and otherwise stores the error; a successful refresh installs the new metadata and layout and CLEARS the error -/\n")
 	fmt.Fprintf(&b, "def updateErrorKeepsKnown : Bool := %v\ndef updateErrorStoresErr : Bool := %v\ndef updateSuccessSetsMetadata : Bool := %v\ndef updateSuccessSetsLayout : Bool := %v\ndef updateSuccessClearsErr : Bool := %v\n\n",
 		keeps, stores, has("metadata=new"), has("layout=new"), has("err=nil"))
+	if err := emitPrepare(repo, &b); err != nil {
+		return err
+	}
 	guard, err := brokerConnGuard(repo)
 	if err != nil {
 		return err
